@@ -183,6 +183,24 @@ func (e *C04) Run(c *core.Ctx, idx int) {
 			}
 			d, fi = fmt.Sprintf("short ftyp %x", data), -2
 		}
+		if idx%25 == 13 {
+			// a metadata-only JPEG stream (SOI, APP1 Exif, [XMP], EOI, then bytes) and streams with
+			// markers in front of SOI: what the scanner makes of them depends on its nesting
+			// counter, which must start at zero in every call
+			t, _, _ := gen.SynthPayload(r, r.Bool(), 1)
+			var s []byte
+			if r.Chance(1, 3) {
+				s = append(s, 0xFF, 0xE0, 0x00, 0x04, 0x11, 0x22) // a segment in front of SOI
+			}
+			s = append(s, 0xFF, 0xD8)
+			ex := gen.ExifSeg(t)
+			s = append(s, 0xFF, ex.Marker, byte((len(ex.Payload)+2)>>8), byte(len(ex.Payload)+2))
+			s = append(s, ex.Payload...)
+			s = append(s, 0xFF, 0xD9)
+			s = append(s, make([]byte, r.Pick(64, 80, 300))...)
+			data = s
+			d, fi = fmt.Sprintf("jpeg metadata-only stream len=%d", len(data)), -2
+		}
 		if idx%25 == 8 {
 			// a date value that stops short (count 16..20 instead of 20) and is the last thing in the
 			// stream: whatever a parser reads behind its end comes from an earlier call
